@@ -422,6 +422,131 @@ def gen(repo):
                 f"def pad_names : String × String := ({json.dumps(first)}, {json.dumps(second)})")
     emit("create_data", cdata)
 
+
+    # ---- finder / alignment / timing patterns: colour tests, skip tests, loop ranges
+    def rng_of(node, tr):
+        if not (isinstance(node, ast.Call) and ast.unparse(node.func) == "range" and 1 <= len(node.args) <= 2):
+            raise Untranslatable("range " + ast.unparse(node)[:40])
+        if len(node.args) == 1:
+            return f"(0, {tr.num(node.args[0])})"
+        return f"({tr.num(node.args[0])}, {tr.num(node.args[1])})"
+
+    def probe():
+        fn = find_func(main, "QRCode.setup_position_probe_pattern")
+        outer = next((x for x in fn.body if isinstance(x, ast.For)), None)
+        if outer is None:
+            raise Untranslatable("no row loop")
+        skip_r = outer.body[0]
+        inner = next((x for x in outer.body if isinstance(x, ast.For)), None)
+        if inner is None or not isinstance(skip_r, ast.If):
+            raise Untranslatable("loop shape")
+        skip_c = inner.body[0]
+        col = next((x for x in inner.body[1:] if isinstance(x, ast.If)), None)
+        if col is None or not isinstance(skip_c, ast.If):
+            raise Untranslatable("no colour test")
+        tr = Tr({outer.target.id: "r", inner.target.id: "c", "row": "row", "col": "col", "self.modules_count": "n"}, "Int")
+        vals = (ast.unparse(col.body[0].value), ast.unparse(col.orelse[0].value)) if col.orelse else ("?", "?")
+        if vals != ("True", "False"):
+            raise Untranslatable(f"colour branches assign {vals}")
+        return (f"def probe_dark (r c : Int) : Bool := {tr.boolean(col.test)}\n"
+                f"def probe_skip_row (n row r : Int) : Bool := {tr.boolean(skip_r.test)}\n"
+                f"def probe_skip_col (n col c : Int) : Bool := {tr.boolean(skip_c.test)}\n"
+                f"def probe_range : (Int × Int) × (Int × Int) := ({rng_of(outer.iter, tr)}, {rng_of(inner.iter, tr)})")
+    emit("probe", probe)
+
+    def align():
+        fn = find_func(main, "QRCode.setup_position_adjust_pattern")
+        loops = [n for n in ast.walk(fn) if isinstance(n, ast.For)]
+        rr = next((l for l in loops if isinstance(l.target, ast.Name) and l.target.id == "r"), None)
+        cc = next((l for l in loops if isinstance(l.target, ast.Name) and l.target.id == "c"), None)
+        if rr is None or cc is None:
+            raise Untranslatable("no r/c loops")
+        col = next((x for x in cc.body if isinstance(x, ast.If)), None)
+        skip = next((n for n in ast.walk(fn) if isinstance(n, ast.If) and isinstance(n.body[0], ast.Continue)), None)
+        if col is None or skip is None:
+            raise Untranslatable("no colour / skip test")
+        tr = Tr({"r": "r", "c": "c"}, "Int")
+        vals = (ast.unparse(col.body[0].value), ast.unparse(col.orelse[0].value)) if col.orelse else ("?", "?")
+        if vals != ("True", "False"):
+            raise Untranslatable(f"colour branches assign {vals}")
+        return (f"def align_dark (r c : Int) : Bool := {tr.boolean(col.test)}\n"
+                f"def align_range : (Int × Int) × (Int × Int) := ({rng_of(rr.iter, tr)}, {rng_of(cc.iter, tr)})\n"
+                f"def align_skip_test : String := {json.dumps(ast.unparse(skip.test))}")
+    emit("align", align)
+
+    def timing():
+        fn = find_func(main, "QRCode.setup_timing_pattern")
+        loops = [x for x in fn.body if isinstance(x, ast.For)]
+        if len(loops) != 2:
+            raise Untranslatable("expected two loops")
+        outs = []
+        for k, lp in enumerate(loops):
+            tr = Tr({lp.target.id: "i", "self.modules_count": "n"}, "Nat")
+            asg = next((x for x in lp.body if isinstance(x, ast.Assign)), None)
+            skip = next((x for x in lp.body if isinstance(x, ast.If)), None)
+            if asg is None or skip is None:
+                raise Untranslatable("loop body")
+            outs.append(f"def timing_dark_{k} (i : Nat) : Bool := {tr.boolean(asg.value)}\n"
+                        f"def timing_range_{k} (n : Nat) : Nat × Nat := {rng_of(lp.iter, tr)}\n"
+                        f"def timing_target_{k} : String := {json.dumps(ast.unparse(asg.targets[0]))}\n"
+                        f"def timing_skip_{k} : String := {json.dumps(ast.unparse(skip.test))}")
+        return "\n".join(outs)
+    emit("timing", timing)
+
+    # ---- print_ascii: get_module
+    def getmod():
+        fn = find_func(main, "QRCode.print_ascii")
+        gm = next((x for x in fn.body if isinstance(x, ast.FunctionDef) and x.name == "get_module"), None)
+        if gm is None:
+            raise Untranslatable("no get_module")
+        tr = Tr({"x": "x", "y": "y", "modcount": "modcount", "self.border": "border", "invert": "invert"}, "Int")
+        trb = Tr({"invert": "invert", "self.border": "(decide (border ≠ 0))"}, "Int")
+        ifs = [x for x in gm.body if isinstance(x, ast.If)]
+        if len(ifs) != 2 or not all(isinstance(i.body[0], ast.Return) for i in ifs):
+            raise Untranslatable("shape of get_module")
+        def cond(node):
+            # truth values of `invert` / `self.border` mixed with comparisons
+            if isinstance(node, ast.BoolOp):
+                op = " && " if isinstance(node.op, ast.And) else " || "
+                return "(" + op.join(cond(v) for v in node.values) + ")"
+            if isinstance(node, (ast.Name, ast.Attribute)):
+                return trb.boolean(node)
+            return tr.boolean(node)
+        return (f"def get_module_phantom (modcount border : Int) (invert : Bool) (x y : Int) : Bool := {cond(ifs[0].test)}\n"
+                f"def get_module_phantom_value : Nat := {ifs[0].body[0].value.value}\n"
+                f"def get_module_outside (modcount x y : Int) : Bool := {tr.boolean(ifs[1].test)}\n"
+                f"def get_module_outside_value : Nat := {ifs[1].body[0].value.value}\n"
+                f"def get_module_inside : String := {json.dumps(ast.unparse(gm.body[-1].value))}")
+    emit("get_module", getmod)
+
+    # ---- QRData.write: chunk sizes and widths
+    def qwrite():
+        fn = find_func(util, "QRData.write")
+        src = {n: ast.unparse(n) for n in ast.walk(fn) if isinstance(n, (ast.For, ast.Call))}
+        loops = [n for n in ast.walk(fn) if isinstance(n, ast.For)]
+        steps = []
+        for lp in loops:
+            if isinstance(lp.iter, ast.Call) and ast.unparse(lp.iter.func) == "range" and len(lp.iter.args) == 3:
+                steps.append(lp.iter.args[2].value)
+        puts = [ast.unparse(n) for n in ast.walk(fn) if isinstance(n, ast.Call) and ast.unparse(n.func) == "buffer.put"]
+        return (f"def write_steps : List Nat := [{', '.join(map(str, steps))}]\n"
+                f"def write_puts : List String := [{', '.join(json.dumps(x) for x in puts)}]")
+    emit("qrdata_write", qwrite)
+
+    # ---- release.update_manpage: the literals it depends on
+    def rel():
+        tree = parse("qrcode/release.py")
+        fn = find_func(tree, "update_manpage")
+        consts = []
+        for n in ast.walk(fn):
+            if isinstance(n, ast.Constant) and isinstance(n.value, (str, int)) and not isinstance(n.value, bool):
+                consts.append(n.value)
+        strs = [c for c in consts if isinstance(c, str) and len(c) < 40 and not c.startswith("\n")]
+        ints = [c for c in consts if isinstance(c, int)]
+        return (f"def release_strings : List String := [{', '.join(json.dumps(x) for x in strs)}]\n"
+                f"def release_ints : List Nat := [{', '.join(str(x) for x in ints)}]")
+    emit("release", rel)
+
     # ---- structure: the sequence of self.* calls in makeImpl and make
     def calls_of(qual):
         fn = find_func(main, qual)
